@@ -57,7 +57,7 @@ CLAIMS = {
   "ref": "DESIGN.md §4 C09"},
  "C10": {
   "technique": "Lean 4 proof (the session executes exactly the plain machine's instruction sequence: paused machine = reference machine advanced by #executed, for all scripts over the stepping alphabet; per-status one-iteration lemmas) + differential correspondence of sessions with the advanced-reference verdict",
-  "text": "Theorems paused_machine_on_trajectory (every script over step / step into k / step out / continue / break add/remove / exit, any program, any number of iterations), stepInto_iter, continue_iter, stepOver_iter, stepOver_pauses, stepOut_iter, cmd_step, cmd_stepInto, cmd_refused_at_halt. stepInto_exact is the big-step statement 'step into N executes exactly N instructions' (no breakpoints, program keeps running, no HALT on the way); the analogous big-step statements for step / step out / continue are not single theorems. Tied to the code by ~3k sessions per run compared on every observable, with the verdict 'paused machine = undebugged run advanced by #executed' evaluated on the implementation.",
+  "text": "Theorems paused_machine_on_trajectory (every script over step / step into k / step out / continue / break add/remove / exit, any program, any number of iterations), stepInto_iter, continue_iter, stepOver_iter, stepOver_pauses, stepOut_iter, cmd_step, cmd_stepInto, cmd_refused_at_halt. Big-step statements along the plain machine's trajectory (no breakpoint and no HALT met on the way, program keeps running): stepInto_exact ('step into N' executes exactly N instructions), run_exact, continue_exact, stepOver_exact ('step' on a call executes exactly the instructions up to the first return to the following address and then waits for a command there), stepOut_exact ('step out' executes up to and including the first RET/RETS and then waits). Tied to the code by ~3k sessions per run compared on every observable, with the verdict 'paused machine = undebugged run advanced by #executed' evaluated on the implementation.",
   "note": "Trusted: Lean kernel; axioms propext, Classical.choice, Quot.sound; the hand-written debugger model is validated against the code by differential testing of whole sessions; minimal-mode stderr only; command text parsing is C14; sessions use .orig/.fill sources (real sources: C17).",
   "ref": "DESIGN.md §4 C10"},
  "C11": {
